@@ -32,6 +32,8 @@ pub enum Op {
     Lookup(u8),
     FindUsable,
     Clear,
+    /// clear_wasted(): removes exactly the stored tracks whose status is Wasted
+    ClearWasted,
     Stats,
 }
 
@@ -98,6 +100,7 @@ pub fn alphabet() -> Vec<Op> {
     }
     a.push(Op::FindUsable);
     a.push(Op::Clear);
+    a.push(Op::ClearWasted);
     a.push(Op::Stats);
     a
 }
@@ -346,6 +349,10 @@ fn step(store: &mut HStore, model: &mut Model, op: &Op, shards: usize) -> Result
             store.clear();
             model.clear();
         }
+        Op::ClearWasted => {
+            store.clear_wasted();
+            model.retain(|_, t| status_of(t) != 2);
+        }
         Op::Stats => {}
     }
     // after every step: shard statistics and every shard's contents
@@ -385,7 +392,7 @@ struct Node {
 pub fn run(tier: Tier) -> Report {
     let rep = Report::new("C09", tier);
     let alpha = alphabet();
-    rep.set_rule(&format!("breadth-first search over operation sequences on ids {{1,2,3}} x classes {{0,1}} ({} symbols: add_track, add, fetch, merge_owned (+ failing attribute merge), merge_external, merge_external_noblock+get, lookup, find_usable, clear, shard_stats) with exact de-duplication of model states; every transition is executed on the real TrackStore (fresh store, prefix replayed) and compared with a BTreeMap model: return value, notifications, shard statistics and every shard's contents. Shard counts 1..5. Non-trivial state = at least one stored track.", alpha.len()));
+    rep.set_rule(&format!("breadth-first search over operation sequences on ids {{1,2,3}} x classes {{0,1}} ({} symbols: add_track, add, fetch, merge_owned (+ failing attribute merge), merge_external, merge_external_noblock+get, lookup, find_usable, clear, clear_wasted, shard_stats) with exact de-duplication of model states; every transition is executed on the real TrackStore (fresh store, prefix replayed) and compared with a BTreeMap model: return value, notifications, shard statistics and every shard's contents. Shard counts 1..5. Non-trivial state = at least one stored track.", alpha.len()));
     rep.assume("runs inside the shuttle runtime under the deterministic default schedule; harness attributes/metric of store_h.rs");
     let depth = tier.pick(3usize, 5usize);
     let shard_counts: Vec<usize> = tier.pick(vec![1, 2, 3], vec![1, 2, 3, 4, 5]);
